@@ -1,221 +1,8 @@
 # C03 - IPFIX data records are decoded exactly as their templates describe.
-import json
-import os
-
-import flowjobs
-import gen_flow
-import vlib
+import codec
 
 LEVEL = "model_checking"
 
-GEN_CFG = """SPECIFICATION Spec
-CONSTANTS
-  Ext <- GenExt
-  PadRule = "%(pad)s"
-  GuardZeroRec = TRUE
-  Cat = {%(cat)s}
-  Shapes <- %(shapes)s
-  MaxSets = %(maxsets)d
-  MaxMsgs = %(maxmsgs)d
-  MaxTotal = %(maxtotal)d
-  CheckTrunc = %(trunc)s
-  CheckSkip = %(skip)s
-  EmitCases = %(emit)s
-INVARIANTS RoundTrip TotalBounded TruncationPrefix SkipTransparent Emit
-CHECK_DEADLOCK FALSE
-"""
-ALLCAT = "256, 257, 258, 259, 260, 261, 262, 263"
-
-
-def gen_cfg(**kw):
-    d = dict(pad="rfc", cat=ALLCAT, shapes="ShapesQ", maxsets=3, maxmsgs=2, maxtotal=3,
-             trunc="FALSE", skip="FALSE", emit="TRUE")
-    d.update(kw)
-    return GEN_CFG % d
-
-
-ELEMENTS_EXT = """4660:
-  1:
-  - verifEntU16
-  - unsigned16
-  2:
-  - verifEntString
-  - string
-"""
-
-
-def elements_dir(ctx, extra=""):
-    """the shipped ipfix.elements plus an enterprise section, installed the documented way"""
-    d = ctx.subdir("elements")
-    with open(os.path.join(vlib.REPO, "scripts", "ipfix.elements")) as fh:
-        base = fh.read()
-    with open(os.path.join(d, "ipfix.elements"), "w") as fh:
-        fh.write(base.rstrip("\n") + "\n" + ELEMENTS_EXT + extra)
-    return d
-
-
-def tlc_cases(ctx, thorough, trunc="FALSE", skip="FALSE"):
-    kw = dict(trunc=trunc, skip=skip)
-    if thorough:
-        kw.update(shapes="ShapesT", maxtotal=4)
-    cfg = gen_cfg(**kw)
-    r = ctx.tlc_model("IPFIXGenMC", "run.cfg", files={"run.cfg": cfg}, want_cases=True,
-                      timeout=3000 if thorough else 600)
-    return r.cases
-
-
-def case_job(c, exp):
-    msgs = [{"exp": exp, "buf": b} for b in c["hist"]]
-    cur = enc_msg(c["hdr"], c["sets"])
-    msgs.append({"exp": exp, "buf": cur})
-    return {"msgs": msgs}
-
-
-def enc_msg(hdr, sets):
-    body = [o for s in sets for o in s]
-    n = 16 + len(body)
-    return [0, 10, n >> 8, n & 255] + hdr["time"] + hdr["seq"] + hdr["dom"] + body
-
 
 def check(ctx):
-    thorough = ctx.tier == "thorough"
-    ctx.rule = ("A: every state of the bounded-exhaustive IPFIX exporter (spec/IPFIXGen.tla: catalogue of 8 templates - "
-                "fixed, single 4- and 2-octet records, options+enterprise, variable length, reduced size, every value kind - "
-                "x set shapes x paddings x histories of <= 2 messages) is one message history decoded by the real ipfix.Decoder "
-                "from each exporter address form and compared field by field with the exporter's content. B: seeded full-range "
-                "messages (whole information model + enterprise elements loaded through LoadExtElements) decoded by the real "
-                "decoder and validated line by line by TLC evaluating the reference collector (IPFIXTrace.tla). Non-trivial: the "
-                "last message carries at least one data record; distinct by message octets + exporter.")
-    ctx.assumptions += ["field length <= type size for fixed-size types; variable length only for string/octetArray; boolean octets 1/2",
-                        "driver canonicalises Go values to (kind, octets) (drivers/ipfix/decode_verif_test.go: vCanon)"]
-    # non-vacuity: the as-built padding rule must be refuted by the model
-    ctx.tlc_must_fail("IPFIXGenMC", "asbuilt.cfg",
-                      files={"asbuilt.cfg": gen_cfg(pad="gt4", cat="257, 262", maxtotal=2, emit="FALSE")},
-                      expect="RoundTrip", workers=4)
-    cases = tlc_cases(ctx, thorough, trunc="TRUE" if thorough else "FALSE", skip="TRUE" if thorough else "FALSE")
-    ctx.note("TLC emitted %d message histories" % len(cases))
-    ctx.exhaustive = True
-    drv = ctx.go_build_test("ipfix", ["ipfix/decode_verif_test.go", "ipfix/infomodel_verif_test.go"])
-    eldir = elements_dir(ctx)
-    exps = flowjobs.exporters(ctx.seed)
-    jobs, meta = [], []
-    for ci, c in enumerate(cases):
-        for ei, exp in enumerate(exps if (thorough or ci % 3 == 0) else exps[:1]):
-            jobs.append(case_job(c, exp))
-            meta.append((ci, exp))
-    res = flowjobs.run_jobs(ctx, drv, "TestVerifIPFIXJobs", jobs, env={"VERIF_ELEMENTS_DIR": eldir}, tag="a")
-    for (ci, exp), job, r in zip(meta, jobs, res):
-        c = cases[ci]
-        judge_case(ctx, c, exp, job, r)
-    ctx.traces_validated += len(jobs)
-    rows, extfile = binding_b(ctx, drv, nhist=400 if thorough else 60)
-    selftest_b(ctx, rows, extfile)
-    ctx.sample({"binding": "A", "history": jobs[len(jobs) // 2]["msgs"], "expected_records": cases[meta[len(jobs) // 2][0]]["want"]})
-
-
-def judge_case(ctx, c, exp, job, r):
-    want = flowjobs.norm_recs(c["want"])
-    key = [exp, [m["buf"] for m in job["msgs"]]]
-    ctx.count(key, nontrivial=len(want) > 0)
-    if "killed" in r:
-        ctx.violation("IPFIX decoder killed the process (%s) on a well-formed history" % r["killed"], {"job": job})
-        return
-    last = r["res"][-1]
-    for i, x in enumerate(r["res"][:-1]):
-        if x["st"] != "ok":
-            ctx.violation("earlier well-formed message %d of the history was not decoded cleanly: %s %s" % (i, x["st"], x.get("err") or x.get("panic")),
-                          {"job": job, "res": x})
-            return
-    if last["st"] != "ok":
-        ctx.violation("well-formed IPFIX message not decoded (%s: %s)" % (last["st"], last.get("err") or last.get("panic")),
-                      {"job": job, "want": c["want"], "res": last}, key="st:" + last["st"])
-        return
-    cur = job["msgs"][-1]["buf"]
-    h = last["hdr"]
-    wh = {"ver": 10, "len": len(cur), "time": c["hdr"]["time"], "seq": c["hdr"]["seq"], "dom": c["hdr"]["dom"]}
-    if h != wh:
-        ctx.violation("IPFIX header decoded as %s, wire says %s" % (h, wh), {"job": job})
-        return
-    got = flowjobs.norm_recs(last["recs"])
-    if got != want:
-        ctx.violation("IPFIX records differ from the exporter's content: " + str(flowjobs.first_diff(want, got)),
-                      {"job": job, "want": c["want"], "got": last["recs"]})
-
-
-def ext_rows():
-    rows = [{"pen": [0, 0, 18, 52], "id": 1, "type": "unsigned16"}, {"pen": [0, 0, 18, 52], "id": 2, "type": "string"}]
-    return rows
-
-
-def binding_b(ctx, drv, proto="ipfix", nhist=60, nmsgs=6, test="TestVerifIPFIXJobs", module="IPFIXTrace"):
-    """seeded full-range histories -> real decoder -> TLC validates against the reference collector"""
-    g = gen_flow.Gen(ctx.rng, proto)
-    ee = gen_flow.ext_elements()
-    d = ctx.subdir("elements_b")
-    with open(os.path.join(vlib.REPO, "scripts", "ipfix.elements")) as fh:
-        base = fh.read()
-    with open(os.path.join(d, "ipfix.elements"), "w") as fh:
-        fh.write(base.rstrip("\n") + "\n" + gen_flow.ext_yaml())
-    extr = [{"pen": gen_flow.u32(p), "id": i, "type": t} for (p, i), t in sorted(ee.items())]
-    exps = flowjobs.exporters(ctx.seed) + [[192, 168, ctx.rng.randrange(256), ctx.rng.randrange(1, 255)]]
-    jobs = []
-    for h in range(nhist):
-        exp = exps[h % len(exps)]
-        jobs.append({"msgs": [{"exp": exp, "buf": m} for m in g.history(nmsgs)]})
-    res = flowjobs.run_jobs(ctx, drv, test, jobs, env={"VERIF_ELEMENTS_DIR": d}, tag="b")
-    rows = []
-    idx = []
-    for ji, (job, r) in enumerate(zip(jobs, res)):
-        if "killed" in r:
-            ctx.violation("%s decoder killed the process (%s) on a well-formed history" % (proto, r["killed"]), {"job": job})
-            continue
-        rows.append({"ev": "reset"})
-        idx.append((ji, -1))
-        for mi, (m, x) in enumerate(zip(job["msgs"], r["res"])):
-            if x["st"] == "panic":
-                ctx.violation("%s decoder panicked on a well-formed message: %s" % (proto, x["panic"]), {"msg": m})
-                break
-            rows.append({"ev": "msg", "exp": m["exp"], "buf": m["buf"],
-                         "res": {"st": x["st"], "hdr": x.get("hdr") or [], "recs": x["recs"]}})
-            idx.append((ji, mi))
-            ctx.count([m["exp"], m["buf"]], nontrivial=len(x["recs"]) > 0)
-    stat = {}
-    for r in rows:
-        if r.get("ev") == "msg":
-            stat[r["res"]["st"]] = stat.get(r["res"]["st"], 0) + 1
-            stat["records"] = stat.get("records", 0) + len(r["res"]["recs"])
-            stat["octets"] = stat.get("octets", 0) + len(r["buf"])
-    ctx.extra["binding_b_" + proto] = stat
-    ctx.note("binding B %s: %s" % (proto, stat))
-    extfile = "".join(json.dumps(r) + "\n" for r in extr)
-    ok, bad = flowjobs.validate_trace(ctx, module, module + ".cfg", rows, files={"ext.ndjson": extfile})
-    if not ok:
-        ji, mi = idx[bad]
-        job = jobs[ji]
-        ctx.violation("%s: the real decoder's result for message %d of a well-formed history is not what the reference "
-                      "collector (spec/%s.tla) computes; real result: st=%s, %d records"
-                      % (proto, mi, module, rows[bad]["res"]["st"], len(rows[bad]["res"]["recs"])),
-                      {"history": job["msgs"][:mi + 1], "real": rows[bad]["res"], "ext": "gen_flow.ext_elements()"})
-    else:
-        ctx.traces_validated += len(jobs)
-    ctx.sample({"binding": "B", "message": jobs[0]["msgs"][-1], "real_result_st": res[0]["res"][-1]["st"] if "res" in res[0] else None})
-    return rows, extfile
-
-
-def selftest_b(ctx, rows, extfile, module="IPFIXTrace"):
-    """the binding itself: one corrupted value octet and one dropped record must be rejected"""
-    import copy
-    i = next((k for k, r in enumerate(rows) if r.get("ev") == "msg" and r["res"]["recs"] and r["res"]["recs"][0][0]["v"]["o"]), None)
-    if i is None:
-        raise vlib.Infra("binding self-test: no decoded record in the trace")
-    start = max(k for k in range(i + 1) if rows[k].get("ev") == "reset")
-    base = rows[start:i + 1]
-    m1 = copy.deepcopy(base)
-    m1[-1]["res"]["recs"][0][0]["v"]["o"][0] ^= 1
-    m2 = copy.deepcopy(base)
-    del m2[-1]["res"]["recs"][0]
-    for name, m in (("value octet flipped", m1), ("record dropped", m2)):
-        ok, bad = flowjobs.validate_trace(ctx, module, module + ".cfg", m, files={"ext.ndjson": extfile})
-        if ok:
-            raise vlib.Infra("binding self-test failed: corrupted trace (%s) accepted" % name)
-        ctx.binding_selftests.append({"corrupt": name, "rejected_at_line": bad + 1})
+    codec.check_roundtrip(ctx, "ipfix")
